@@ -24,6 +24,7 @@ func init() {
 			{"C17.errgroup", "workers under errgroup; success only through g.Wait()", 1, func(c *Ctx) { c.errgroupRule("VerifyIndex") }},
 			{"C17.cancel-not-success", "a cancelled verify-index never reports success", 1, func(c *Ctx) { c.doneIsErrorFor("VerifyIndex") }},
 			{"C17.workers-started", "every loop that starts pool workers starts one per unit of the worker count (none is skipped for n == 1)", 6, func(c *Ctx) { c.workersStarted() }},
+			{"C17.feeder-watches-group", "the select that feeds pool workers watches the errgroup context, so a failed worker stops the feeder", 5, func(c *Ctx) { c.feederWatchesGroup() }},
 			{"C17.errors-not-dropped", "no error of the operations this property depends on is dropped", 1, func(c *Ctx) { c.errorsNotDropped("C17") }},
 		},
 	})
